@@ -45,12 +45,16 @@ GROUP = {"and": "$and", "or": "$or", "not": "$not", "perm": "$and_any_order",
 def unparse_op(q, opt):
     k = q["k"]
     t = times_doc(q)
+    if k in ("lit", "ocap", "rcap") and t is not None:
+        raise MachineryError("the grammar has no spelling for `times` on a plain operand or capture")
     if k == "lit":
         return q["name"]
     if k in ("ocap", "rcap"):
         return cap_name(q, opt.get("upper_suffix", False))
     if k == "deref":
-        d = {"$deref": {f["name"]: unparse_field(f["kids"][0], opt) for f in q["kids"]}}
+        # a field holding a group is written as a one-element list (tests/yamls/logic_operators_inside_deref.yaml)
+        d = {"$deref": {f["name"]: ([unparse_field(f["kids"][0], opt)] if f["kids"][0]["k"] == "for"
+                                    else unparse_field(f["kids"][0], opt)) for f in q["kids"]}}
         if t is not None:
             d["times"] = t
         return d
@@ -79,6 +83,8 @@ def unparse_item(p, opt):
             d["times"] = t
         return d
     if k == "icap":
+        if t is not None:
+            raise MachineryError("the grammar has no spelling for `times` on an instruction capture")
         return "&" + p["name"]
     if k in ("and", "or", "not", "perm"):
         d = {GROUP[k]: [unparse_item(x, opt) for x in p["kids"]]}
